@@ -90,6 +90,10 @@ pub struct SauceD {
     pub letter_spacing: bool,
     pub aspect_ratio: bool,
     pub font: Option<String>,
+    /// the file type the SAUCE data remembers from where it was loaded (0 undefined, 1 ASCII, 2 ANSi, 3 ANSiMation,
+    /// 4 PCBoard, 5 Avatar, 6 TundraDraw, 7 Bin, 8 XBin); a writer chooses the variant it writes by its own format
+    #[serde(default)]
+    pub file_type: u8,
 }
 
 #[derive(Clone, Debug, Serialize, Deserialize)]
@@ -179,6 +183,17 @@ pub fn make_sauce(s: &SauceD, size: Size) -> SauceData {
     d.use_aspect_ratio = s.aspect_ratio;
     d.font_opt = s.font.clone();
     d.buffer_size = size;
+    d.sauce_file_type = match s.file_type {
+        1 => icy_engine::SauceFileType::Ascii,
+        2 => icy_engine::SauceFileType::Ansi,
+        3 => icy_engine::SauceFileType::ANSiMation,
+        4 => icy_engine::SauceFileType::PCBoard,
+        5 => icy_engine::SauceFileType::Avatar,
+        6 => icy_engine::SauceFileType::TundraDraw,
+        7 => icy_engine::SauceFileType::Bin,
+        8 => icy_engine::SauceFileType::XBin,
+        _ => icy_engine::SauceFileType::Undefined,
+    };
     d
 }
 
@@ -401,6 +416,7 @@ pub fn random_sauce(rng: &mut Rng) -> SauceD {
         letter_spacing: rng.bool(),
         aspect_ratio: rng.bool(),
         font: None,
+        file_type: 0,
     }
 }
 
